@@ -71,6 +71,6 @@ def run(ck, tier, seed):
     vlib.absorb(ck, h2)
     if h2.summary:
         ck.traces += h2.summary["extra"]["fonts"]
-        ck.extra["impl"]["shipped"] = h2.summary["extra"]
+        ck.extra.setdefault("impl", {})["shipped"] = h2.summary["extra"]
     ck.assumptions += ["the abstract map of spec/Features.tla is the oracle; fontgen/feat.py writes Feat v2 / Sill / name tables for it",
                        "host font tests/fonts/small.ttf supplies the non-feature tables"]
